@@ -9,13 +9,16 @@ use crate::worlds::dlrt::DlrtWorld;
 use crate::worlds::dltask::DlTaskWorld;
 use crate::worlds::vote::VoteWorld;
 use crate::worlds::store::StoreWorld;
+use crate::worlds::codec::CodecWorld;
+use crate::worlds::chan::ChanWorld;
+use crate::worlds::recon::ReconWorld;
 
 fn agent(focus: &'static str, name: &'static str) -> Arc<dyn World> {
     Arc::new(AgentWorld { focus, name })
 }
 
 pub fn world_names() -> Vec<&'static str> {
-    vec!["agent-c01", "agent-c02", "agent-c03", "agent-c04", "agent-c05", "agent-c14", "agent-c20", "agent-mix", "dlrt-value", "dlrt-map", "dltask-value", "dltask-map", "vote", "store-mem", "store-rocks"]
+    vec!["agent-c01", "agent-c02", "agent-c03", "agent-c04", "agent-c05", "agent-c14", "agent-c20", "agent-mix", "dlrt-value", "dlrt-map", "dltask-value", "dltask-map", "vote", "store-mem", "store-rocks", "codec", "chan", "recon"]
 }
 
 pub fn world_by_name(name: &str) -> Option<Arc<dyn World>> {
@@ -33,6 +36,9 @@ pub fn world_by_name(name: &str) -> Option<Arc<dyn World>> {
         "dltask-value" => Arc::new(DlTaskWorld { map: false }),
         "dltask-map" => Arc::new(DlTaskWorld { map: true }),
         "vote" => Arc::new(VoteWorld),
+        "codec" => Arc::new(CodecWorld),
+        "chan" => Arc::new(ChanWorld),
+        "recon" => Arc::new(ReconWorld),
         "store-mem" => Arc::new(StoreWorld { kind: "mem", name: "store-mem" }),
         "store-rocks" => Arc::new(StoreWorld { kind: "rocks", name: "store-rocks" }),
         _ => return None,
@@ -47,6 +53,20 @@ const AGENT_ASSUMPTIONS: &[&str] = &[
     "the agent + runtime future is polled as one task (as the server does with tokio::spawn); interleavings finer than one poll are approximated by forced yields after k byte-channel operations (k drawn per run, down to 1)",
     "remote peers, command targets and the store are harness code speaking the product's own codecs over the product's byte channels",
     "a clean batch is evidence for the explored seeds, not a proof",
+];
+
+const CHAN_ASSUMPTIONS: &[&str] = &[
+    "single-threaded operation simulator: every access to the shared Conduit (poll_read, poll_write, poll_flush, poll_shutdown, both Drop impls) is serialised by one parking_lot::Mutex, so each multi-threaded execution is an interleaving of these atomic operations, which is what the scripted sequences enumerate; the coop budget is thread-local and never shared between threads",
+    "one waker per side (a side that re-polls with a different waker than it registered is not modelled); capacities 1..=9, request sizes 0..=12, up to 40 operations per sequence, 256 independent sequences per run (75_000 quick runs = 19.2M sequences)",
+    "a Pending during which the polled side's own waker fired is treated as a legal cooperative yield; a budget of 1 is excluded (it yields on every poll by construction)",
+    "seeded random exploration, not exhaustive: a clean batch is evidence for the explored sequences, not a proof",
+];
+
+const RECON_ASSUMPTIONS: &[&str] = &[
+    "the incremental decoders are driven the way the product drives them: one value per bounded body (FramedRead: decode while bytes arrive, decode_eof at the end; WithLenRecognizerDecoder: length prefix + consume_bounded); the result of a decode is the first frame",
+    "the one-shot reference is parse_recognize(text, allow_comments = false), the flag RecognizerDecoder is built with; parse_recon_document is compared with the one-shot parse of `{` text `}` under its own flag",
+    "single cuts are exhaustive for texts up to 256 bytes and sampled (64 positions, both ends dense) for longer ones; multi-cuts are sampled; a clean batch is evidence for the explored seeds, not a proof",
+    "a synchronous endless loop inside one decode call would be caught only by a 60 s wall-clock fail-safe (the poll bound sees Ok(None)-for-ever and spinning wake-ups)",
 ];
 
 const STORE_ASSUMPTIONS: &[&str] = &[
@@ -81,6 +101,25 @@ pub fn spec_for(property: &str) -> Option<CheckSpec> {
                 "system level: the downlink runtime with idle consumers must not stop when time passes (dlrt idle probe); agent time-out endings are exercised by the agent world".to_string(),
             ],
         },
+        "C09" => CheckSpec {
+            property: "C09",
+            level: "exploration",
+            parts: vec![part("recon", 1000, 150_000)],
+            assumptions: RECON_ASSUMPTIONS.iter().map(|s| s.to_string()).collect(),
+        },
+        "C10" => CheckSpec {
+            property: "C10",
+            level: "fault_enumeration",
+            parts: vec![part("codec", 20_000, 1_000_000)],
+            assumptions: vec![
+                "every codec pair is driven through the real tokio_util FramedRead over a scripted AsyncRead (SimPipe); the encoded stream comes from the product's own encoders".to_string(),
+                "corruptions are aimed with harness knowledge of the wire layout (tag bytes, length fields, Recon body regions); the oracle for corrupted streams demands only: no panic/abort, termination, an error for undefined tags (where the decoder has such an error path), no message from a frame that can never complete, exact decoding of the frames before the corruption".to_string(),
+                "typed bodies are restricted to i32 / String / Value shapes whose compact Recon text reads back unambiguously (checked per run with the non-incremental parser)".to_string(),
+                "an infinite loop inside a single decode() call would hang the harness instead of being reported (only non-termination across polls is bounded)".to_string(),
+                "a clean batch is evidence for the explored seeds, not a proof".to_string(),
+            ],
+        },
+        "C12" => CheckSpec { property: "C12", level: "exploration", parts: vec![part("chan", 75_000, 7_500_000)], assumptions: CHAN_ASSUMPTIONS.iter().map(|s| s.to_string()).collect() },
         "C13" => CheckSpec {
             property: "C13",
             level: "fault_enumeration",
